@@ -45,7 +45,9 @@ def decode(t, z, m, refs=None):
             b = _int(m, z[i])
             out.append((b or 0) % 256)
         return {'bytes_len': n, 'head': out}
-    if t is TFloat or isinstance(t, TAny):
+    if t is TFloat:
+        return {'float': str(_ev(m, z))}
+    if isinstance(t, TAny):
         return {'opaque': str(_ev(m, z))}
     if isinstance(t, TOpt):
         if z3.is_true(_ev(m, t.is_none(z))):
